@@ -33,8 +33,18 @@ def modes() -> Dict[str, Any]:
     return {"SYNC": {ParallelizationMode.SYNC}, "THREADING": {ParallelizationMode.THREADING}}
 
 
+AT_YIELD: List[Any] = []
+
+
 def stream_items(sess: Any, mode: Any) -> Any:
-    return list(sess.stream_run(parallelization_modes=mode))
+    """Drains the stream; the canonical content of every item is recorded the moment it is received (AT_YIELD): a table that was
+    handed out must not change afterwards (it is the consumer's), so the same objects are canonicalised again at the end."""
+    AT_YIELD.clear()
+    out = []
+    for t in sess.stream_run(parallelization_modes=mode):
+        AT_YIELD.append(canon_result([t]))
+        out.append(t)
+    return out
 
 
 def one(spec: Dict[str, Any], rng: random.Random, only_modes: Optional[List[str]] = None) -> Dict[str, Any]:
@@ -83,6 +93,10 @@ def one(spec: Dict[str, Any], rng: random.Random, only_modes: Optional[List[str]
                 rec["problems"].append(f"{mname}: yielded key is not a requested feature-group step")
             if canon_result([t for _, t in items]) != batch:
                 rec["problems"].append(f"{mname}: multiset of streamed tables differs from the batch result")
+            changed = [k_ for k_, (_, t) in enumerate(items) if k_ < len(AT_YIELD) and canon_result([t]) != AT_YIELD[k_]]
+            if changed:
+                rec["problems"].append(f"{mname}: streamed table(s) {changed} changed AFTER they were handed to the consumer (the result aliases "
+                                       "data the run keeps working on)")
             m["n_items"] = len(items)
             # consumer behaviours
             if m["stream"] == "ok":
